@@ -1033,6 +1033,15 @@ func runCase(c Case, pl *plan) caseResult {
 	res.cutAt = len(c.Ops) - 1
 	res.cutP = -1
 	for i, op := range c.Ops {
+		// a commit that writes on top of a DISCARDED candidate (only reachable when an invalid call of
+		// the errors profile happened to be valid): badger's answer depends on which nodes of the
+		// discarded root survived and on its unversioned root-node key - not modelled; K stops before it
+		if op.K == "commit" && op.Old != 0 && len(op.Writes) > 0 && res.cutAt == len(c.Ops)-1 {
+			if oi := pl.roots[op.Old]; oi.rid >= 2 && rb.ref.finalized[oi.ver] && !rb.ref.present[oi.ver][oi.rid] && oi.ver >= rb.ref.earliest {
+				res.cutAt = i - 1
+				res.stats["case-truncated-for-K-before-commit-on-discarded-root"]++
+			}
+		}
 		ob := rb.step(op)
 		rb.observe(&ob)
 		rb.oracle(op, &ob)
